@@ -154,27 +154,33 @@ def r_dir(*a):
 
 # ----------------------------------------------------------------------------- virtual file system
 class VFS:
-    """files: concrete path -> content (str or S).  `oracle(kind, path)` if set answers
-    exists/isfile (may fork through the engine)."""
-    files = {}
+    """files: path -> content (both may be symbolic shadow strings)."""
+    files = core.SDict()
     oracle = None
     opened = []
 
     @classmethod
     def reset(cls):
-        cls.files = {}
+        cls.files = core.SDict()
         cls.oracle = None
         cls.opened = []
 
     @classmethod
     def lookup(cls, path):
-        if core.issym(path):
-            for k in cls.files:
-                if len(k) == len(path) and (path == k):
-                    return k
-            return None
-        p = conc(path)
-        return p if p in cls.files else None
+        """the stored key equal to path, or None"""
+        path = core.to_S(path)
+        for k in cls.files.keys():
+            if len(k) == len(path) and (k == path):
+                return k
+        return None
+
+    @classmethod
+    def has_dir(cls, path):
+        path = core.to_S(path).rstrip("/") + S("/")
+        for k in cls.files.keys():
+            if len(k) > len(path) and k.startswith(path):
+                return True
+        return False
 
 
 class SIO:
@@ -236,8 +242,8 @@ def v_open(path, mode="r", *a, **k):
     key = VFS.lookup(path)
     if key is not None:
         VFS.opened.append(key)
-        return SIO(VFS.files[key], name=S(key))
-    if VFS.files or VFS.oracle is not None:
+        return SIO(VFS.files[key], name=core.to_S(key))
+    if len(VFS.files) or VFS.oracle is not None:
         raise FileNotFoundError(2, "No such file or directory (vfs)")
     p = conc(path)
     with open(p, conc(mode), *[unwrap(x) for x in a], **{kk: unwrap(v) for kk, v in k.items()}) as f:
@@ -264,15 +270,15 @@ class _Path:
     def exists(p):
         if VFS.oracle is not None:
             return VFS.oracle("exists", p)
-        if VFS.files:
-            return VFS.lookup(p) is not None or any(k.startswith(conc(p).rstrip("/") + "/") for k in VFS.files) if not core.issym(p) else VFS.lookup(p) is not None
+        if len(VFS.files):
+            return VFS.lookup(p) is not None or VFS.has_dir(p)
         return os.path.exists(conc(p))
 
     @staticmethod
     def isfile(p):
         if VFS.oracle is not None:
             return VFS.oracle("isfile", p)
-        if VFS.files:
+        if len(VFS.files):
             return VFS.lookup(p) is not None
         return os.path.isfile(conc(p))
 
@@ -280,8 +286,8 @@ class _Path:
     def isdir(p):
         if VFS.oracle is not None:
             return VFS.oracle("isdir", p)
-        if VFS.files:
-            return (not core.issym(p)) and any(k.startswith(conc(p).rstrip("/") + "/") for k in VFS.files)
+        if len(VFS.files):
+            return VFS.has_dir(p)
         return os.path.isdir(conc(p))
 
     @staticmethod
